@@ -241,6 +241,34 @@ def main(pid, tier, seed, cfg):
                 lost.append((x["key"], dict(name=name, kind="disappeared", status="disappeared", note="obligation no longer generated",
                                             contract=False, line=0)))
 
+    # ---- extra provers (per-pattern obligations discharged by a dedicated decision procedure)
+    prover_fail = []
+    for (modname, fn) in cfg.get("provers", []):
+        try:
+            pr = getattr(importlib.import_module(modname), fn)(tier=tier, seed=seed)
+        except Exception:
+            run.broken.append("prover %s crashed: %s" % (modname, traceback.format_exc()[-600:]))
+            continue
+        fkey = "%s.%s" % (modname, fn)
+        n_here = len(pr["obligations"])
+        d_here = sum(1 for o in pr["obligations"] if o["status"] == "proved")
+        functions.append(dict(key=fkey, status="ok", obligations=n_here, discharged=d_here, skipped=len(pr.get("skipped", [])),
+                              skipped_samples=pr.get("skipped", [])[:12], sha256=None, paths=None, lines=None, uses_lemmas=[], reason=None))
+        for o in pr["obligations"]:
+            n_obl += 1
+            solver_time += o.get("time_s", 0)
+            backends[o["backend"]] = backends.get(o["backend"], 0) + 1
+            if o["status"] == "proved":
+                n_dis += 1
+            elif o["status"] == "error":
+                run.broken.append("prover %s: %s: %s" % (modname, o["name"], (o.get("reason") or "")[:300]))
+            elif o["status"] != "refuted":
+                lost.append((fkey, o))
+        for f in pr["failures"]:
+            prover_fail.append((fkey, f))
+        if n_here == 0:
+            run.broken.append("prover %s generated no obligations" % modname)
+
     # ---- function-level native contracts (bounded; also the CPython cross-check of the encoding)
     native_res = run.run_native()
     native_eval = 0
@@ -289,6 +317,14 @@ def main(pid, tier, seed, cfg):
         else:
             run.notes.append("proof lost for %s (%d obligations not discharged); bounded layers decide" % (
                 key, sum(1 for k, _ in lost if k == key)))
+    seen_pf = set()
+    for fkey, f in prover_fail:
+        n_obl_dummy = 0
+        if len(seen_pf) >= 5:
+            break
+        seen_pf.add(f["key"])
+        report(f["key"], f["text"], dict(kind="bounded", check=fkey, case=f.get("case"), expected=f.get("expected"),
+                                         actual=f.get("actual")))
     for b in bounded_res:
         seen = set()
         for f in b["failures"]:
